@@ -790,7 +790,11 @@ func (f *fragment) setRow(row *Row, rowID uint64) (bool, error) {
 	if mustClose {
 		defer f.safeClose()
 	}
-	return f.unprotectedSetRow(row, rowID)
+	changed, err := f.unprotectedSetRow(row, rowID)
+	// The new row is not in the op log, so it only becomes durable with the
+	// snapshot requested above: wait for it before acknowledging the write.
+	f.unprotectedAwaitSnapshot()
+	return changed, err
 }
 
 func (f *fragment) unprotectedSetRow(row *Row, rowID uint64) (changed bool, err error) {
@@ -851,7 +855,11 @@ func (f *fragment) clearRow(rowID uint64) (bool, error) {
 	if mustClose {
 		defer f.safeClose()
 	}
-	return f.unprotectedClearRow(rowID)
+	changed, err := f.unprotectedClearRow(rowID)
+	// The removal is not in the op log, so it only becomes durable with the
+	// snapshot requested above: wait for it before acknowledging the write.
+	f.unprotectedAwaitSnapshot()
+	return changed, err
 }
 
 func (f *fragment) unprotectedClearRow(rowID uint64) (changed bool, err error) {
